@@ -186,6 +186,11 @@ def cases(tier, seed):
         for part in range(parts):
             out.append({"k": "sortall", "d": d, "n": n, "part": part, "parts": parts})
     out.append({"k": "families"})
+    for d, n in ((1, 4), (2, 2), (2, 3), (2, 4), (3, 2), (3, 3)):
+        total = 5 ** (d * n)
+        parts = max(1, total // 30000)
+        for part in range(parts):
+            out.append({"k": "sortall", "d": d, "n": n, "part": part, "parts": parts, "values": [0, 1, 1700, 70000, 2147483647]})
     for D in (1, 2, 3):
         args = list(index_args(D, 4))
         for i0 in range(0, len(args), 40):
@@ -203,7 +208,9 @@ def run_case(case, R):
     k = case["k"]
     if k == "sortall":
         d, n = case["d"], case["n"]
-        total = 3 ** (d * n)
+        values = case.get("values", [0, 1, 2])
+        base = len(values)
+        total = base ** (d * n)
         lo = total * case["part"] // case["parts"]
         hi = total * (case["part"] + 1) // case["parts"]
         digits = d * n
@@ -211,9 +218,11 @@ def run_case(case, R):
             x = code
             flat = []
             for _ in range(digits):
-                flat.append(x % 3)
-                x //= 3
+                flat.append(values[x % base])
+                x //= base
             keys = numpy.array(flat).reshape(d, n)
+            if base > 3 and code % 2:
+                keys = keys.astype(numpy.uint32)     # the library passes uint32 exponent tables
             for graded, reverse in FLAGS:
                 R.tr()
                 try:
@@ -226,7 +235,7 @@ def run_case(case, R):
                 if bad:
                     R.fail("glexsort", "wrong-value", f"keys {keys.tolist()} graded={graded} reverse={reverse}: {bad}",
                            tags=[f"graded={graded}", f"reverse={reverse}", f"n={n}"], sub={"k": "sortone", "keys": keys.tolist(), "g": graded, "r": reverse})
-        R.state(("sortall", d, n, case["part"]))
+        R.state(("sortall", d, n, case["part"], base))
         for fl in FLAGS:
             R.outcome(("sortall", d, n, case["part"], fl))
         R.stat("key_matrices", hi - lo)
